@@ -186,9 +186,7 @@ def run_stream(sc):
     for m in msgs:
         payload = ser.serialize(m)[0]
         stream += struct.pack("!L", len(payload)) + payload
-    escs = []
-    for ch in cut(stream, list(sc["cuts"])):
-        escs.append(D.feed_reactor(p, t, ch))
+    escs = D.feed_chunks(p, t, cut(stream, list(sc["cuts"])), burst=(len(sc["cuts"]) % 3 == 1))
     got = sessions[0].msgs if sessions else []
     intact = len(got) == len(msgs) and all(a.marshal() == b.marshal() for a, b in zip(got, msgs))
     obs = dict(attached=sum(x.opens for x in sessions), delivered=len(got), intact=bool(intact), esc=";".join(x for x in escs if x)[:80], dropped=D.dropped(t))
@@ -231,9 +229,7 @@ def run_pair(sc):
         pos[key] = len(ft.written)
         if not data or getattr(tt, "_lost_told", False):
             return
-        escs = []
-        for ch in cut(data, cuts):
-            escs.append(D.feed_reactor(tp, tt, ch))
+        escs = D.feed_chunks(tp, tt, cut(data, cuts), burst=(rng.random() < 0.4))
         msgs = tsess[0].msgs[seen[to]:]
         seen[to] = len(tsess[0].msgs)
         ids = [m.request if hasattr(m, "request") else -1 for m in msgs]
